@@ -73,3 +73,26 @@ Theorem C19_every_line_is_accounted_for_any_recorder : forall re_ok re_match o E
                exists ev, In (OEvent ev) (out_trace out') /\ bad_detail (ev_detail ev).
 Proof. exact every_line_is_accounted_for_any_recorder. Qed.
 Print Assumptions C19_every_line_is_accounted_for_any_recorder.
+
+(* ---- the evaluator's construction options (NewEvaluatorWithOptions): "with no logger, or a nil logger option ..." ----
+   The option list is folded front to back over a zero configuration (Options.v, tied to the code by the `micro` mode of
+   this property, which reads the configuration off three probe evaluations).  A nil entry is skipped wherever it stands
+   -- it never hides the options after it --, the last option of each kind decides (so a nil logger option after a logger
+   option switches logging off, and the reverse), and options of different kinds may be given in any order. *)
+From LD Require Import Options OptionsSpec.
+
+Theorem C19_nil_options_are_skipped : forall l1 l2, build_ecfg (l1 ++ None :: l2) = build_ecfg (l1 ++ l2).
+Proof. exact nil_options_are_skipped. Qed.
+Print Assumptions C19_nil_options_are_skipped.
+
+Theorem C19_last_option_of_each_kind_wins : forall l,
+  ec_secondary (build_ecfg l) = or_default (last_secondary l) false /\
+  ec_logger (build_ecfg l) = or_default (last_logger l) false /\
+  ec_provider (build_ecfg l) = or_default (last_provider l) false.
+Proof. exact last_option_of_each_kind_wins. Qed.
+Print Assumptions C19_last_option_of_each_kind_wins.
+
+Theorem C19_options_of_different_kinds_commute : forall l1 a b l2, same_kind a b = false ->
+  build_ecfg (l1 ++ Some a :: Some b :: l2) = build_ecfg (l1 ++ Some b :: Some a :: l2).
+Proof. exact different_kinds_commute. Qed.
+Print Assumptions C19_options_of_different_kinds_commute.
